@@ -3,3 +3,7 @@ from . import ext
 
 ext.install(symexec.Exec, stmts.Runner)
 ext.install_calls()
+from . import ext2
+
+ext2.install(symexec.Exec, stmts.Runner)
+ext2.install_calls()
